@@ -103,14 +103,14 @@ def mon_repeatable_under_lock(v, counters):
                 if key in first:
                     counters['rereads_under_lock'] = counters.get('rereads_under_lock', 0) + 1
                     if first[key] != d[3]:
-                        out.append(('locked-row-read-changed|%s|%s' % (v.progs[t]['name'], d[2]),
+                        out.append(('locked-row-read-changed|%s|%s' % (L.sclass(v.progs[t]), L.KIND[d[2]]),
                                     'T%d read A[%s].%s = %r and later %r while it held the lock' % (t, d[1], d[2], first[key], d[3])))
                 else: first[key] = d[3]
     return out
 
 def judge(v, counters):
     out = []
-    if v.x.deadlock: out.append(('deadlock|%s' % '+'.join(sorted(p['name'] for p in v.progs)), 'no enabled thread while some thread is unfinished'))
+    if v.x.deadlock: out.append(('deadlock|%s' % '+'.join(sorted(L.sclass(p) for p in v.progs)), 'no enabled thread while some thread is unfinished'))
     out += L.mon_lock_window(v, counters)
     out += mon_repeatable_under_lock(v, counters)
     out += L.mon_commit_attribution(v)
@@ -305,16 +305,17 @@ def run(ctx):
     pg_emission(ctx)
     pg_transactions(ctx)
     c = ctx.counters
-    ctx.guard('lock windows examined', c.get('lock_windows', 0), 1000)
-    ctx.guard('executions with a session disabled on the provider lock (writers wait)', c.get('executions_with_a_session_waiting_on_the_lock', 0), 1000)
-    ctx.guard('sessions that failed (writers fail)', c.get('sessions_failed', 0), 50)
-    ctx.guard('re-reads under lock compared', c.get('rereads_under_lock', 0), 100)
-    ctx.guard('program pairs with more than one distinct outcome', agg['per_kind']['pair']['tuples_with_more_than_one_outcome'], 50)
-    ctx.guard('PostgreSQL locking clauses rendered and checked', c.get('pg_locking_clauses_rendered', 0), 40)
-    ctx.guard('PostgreSQL plain selects checked to carry no clause', c.get('pg_plain_selects_without_clause', 0), 20)
-    ctx.guard('PostgreSQL locking selects inside a transaction', c.get('pg_locking_selects_in_transaction', 0), 10)
-    ctx.guard('PostgreSQL serializable sessions', c.get('pg_serializable_sessions_ok', 0), 3)
-    ctx.guard('all-points cross-check tuples', c.get('xcheck_tuples_all_points_outcomes_contained', 0), 2)
+    L.guards(ctx, [
+        ('lock windows examined', c.get('lock_windows', 0), 1000),
+        ('executions with a session disabled on the provider lock (writers wait)', c.get('executions_with_a_session_waiting_on_the_lock', 0), 1000),
+        ('sessions that failed (writers fail)', c.get('sessions_failed', 0), 50),
+        ('re-reads under lock compared', c.get('rereads_under_lock', 0), 100),
+        ('program pairs with more than one distinct outcome', agg['per_kind']['pair']['tuples_with_more_than_one_outcome'], 50),
+        ('PostgreSQL locking clauses rendered and checked', c.get('pg_locking_clauses_rendered', 0), 40),
+        ('PostgreSQL plain selects checked to carry no clause', c.get('pg_plain_selects_without_clause', 0), 20),
+        ('PostgreSQL locking selects inside a transaction', c.get('pg_locking_selects_in_transaction', 0), 10),
+        ('PostgreSQL serializable sessions', c.get('pg_serializable_sessions_ok', 0), 3),
+        ('all-points cross-check tuples', c.get('xcheck_tuples_all_points_outcomes_contained', 0), 2),])
     out = L.coverage(ctx, agg)
     ctx.cov.update(lockers=len(LOCKERS), writers=len(WRITERS), pg_requests=len(REQUESTS),
                    bounds='pairs (locker x writer, locker x locker): preemption bound 2; locker + 2 writers: bound 1' if ctx.quick else
